@@ -467,7 +467,7 @@ class RankRun:
                 self.builtin(m.group(1).lower(), m.group(2))
                 i += 1
                 continue
-            m = re.match(r"^(\w+)\s*(=>|=)\s*(.*)$", ln)
+            m = re.match(r"^(\w+)(?:\(\d+\))?\s*(=>|=)\s*(.*)$", ln)
             if m:
                 self.setup(m.group(1).lower(), m.group(3))
                 i += 1
@@ -482,7 +482,8 @@ class RankRun:
                 "get_stencil_dofmap(" in low or "get_stencil_sizes()" in low \
                 or "get_colour_map()" in low or \
                 "all_colours()" in low or "null()" in low:
-            m = re.match(r"(?i)(\w+)_proxy%vspace%get_stencil_dofmap\("
+            m = re.match(r"(?i)(\w+)_proxy(?:\(\d+\))?%vspace%"
+                         r"get_stencil_dofmap\("
                          r"(\w+)\s*,\s*(.*)\)$", rhs.strip())
             if m:
                 self.sim.stencil_extent[(self.r, lhs)] = self.ev(m.group(3))
@@ -567,15 +568,25 @@ class RankRun:
         # size/dofmap actuals follow the field's data array
         stencil_maps = {}
         last = None
+        run = []        # the data arrays seen since the last non-data actual
         for a in args:
             a = a.strip()
             if re.match(r"(?i)^\w+_data$", a):
                 last = a
+                run.append(a)
                 continue
             m = re.match(r"(?i)^(\w+?)_stencil_size(_\d+)?\(", a)
             if m and last is not None:
-                stencil_maps[last.lower()] = (
-                    m.group(1) + "_stencil_map" + (m.group(2) or "")).lower()
+                smap = (m.group(1) + "_stencil_map" +
+                        (m.group(2) or "")).lower()
+                stencil_maps[last.lower()] = smap
+                # the components of a field vector (f_1_data, f_2_data, ...)
+                # precede their common stencil actuals
+                base = m.group(1).lower()
+                for other in run:
+                    if re.match(rf"(?i)^{re.escape(base)}_\d+_data$", other):
+                        stencil_maps[other.lower()] = smap
+            run = []
         if len(fields) != len(kern["args"]):
             raise Discard("kernel argument count")
         cell_expr = None
